@@ -314,7 +314,10 @@ func c06Apply(cfg c06Cfg) func(w W, d oop) (string, string) {
 		case oSetOdd:
 			return panickingSet(func(o at.Object) { o.Set(key(d.K1)) }, "", nil, nil, false)
 		case oSetOddAfterPair:
-			return panickingSet(func(o at.Object) { o.Set(key(d.K1), rv, key(d.K2)) }, key(d.K1), mv, rv, true)
+			// an odd argument COUNT is a defect of the call as a whole, known before any pair is looked at: the call
+			// is rejected and the receiver stays as it was (the full observation after this transition compares it
+			// with the unchanged model). Only for a bad KEY met in the middle of the list is the statement silent.
+			return panickingSet(func(o at.Object) { o.Set(key(d.K1), rv, key(d.K2)) }, "", nil, nil, false)
 		case oSetBadKey:
 			return panickingSet(func(o at.Object) { o.Set(7, rv) }, "", nil, nil, false)
 		case oSetBadKeyAfterPair:
